@@ -168,6 +168,17 @@ func (s *c20plainWatcher) Watch(ctx context.Context, t *dials.Type, wa dials.Wat
 	return s.watchErr
 }
 
+// c20eagerWatcher reports a newer value (a+1) from within Watch.
+type c20eagerWatcher struct{ c20plainWatcher }
+
+func (s *c20eagerWatcher) Watch(ctx context.Context, t *dials.Type, wa dials.WatchArgs) error {
+	s.watched, s.watchCtx, s.wa, s.t = true, ctx, wa, t
+	out := reflect.New(t.Type()).Elem()
+	x := s.a + 1
+	out.FieldByName("A").Set(reflect.ValueOf(&x))
+	return wa.BlockingReportNewValue(ctx, out)
+}
+
 // HarnessC20Blank: sequences of SetSource/Done on a Blank.
 func HarnessC20Blank() {
 	b := &Blank{}
@@ -183,11 +194,24 @@ func HarnessC20Blank() {
 	owner := 0 // 0 none, 1 plain inner, 2 watcher inner
 	want := int64(1)
 	var w *c20plainWatcher
+	var lastPlain *c20plain
 	for i := 0; i < 3; i++ {
-		switch zzverif.Choose("op"+string(rune('0'+i)), 4) {
+		switch zzverif.Choose("op"+string(rune('0'+i)), 5) {
+		case 4: // hand in the most recently set plain source again after its content changed
+			if lastPlain == nil || owner == 2 {
+				continue
+			}
+			lastPlain.a = int64(30 + i)
+			e := b.SetSource(ctx, lastPlain)
+			zzverif.Assert(e == nil, "C20 SetSource of the same plain source again failed")
+			owner, want = 1, lastPlain.a
 		case 0: // set a plain source
 			v := int64(10 + i)
-			e := b.SetSource(ctx, &c20plain{a: v})
+			np := &c20plain{a: v}
+			e := b.SetSource(ctx, np)
+			if owner != 2 {
+				lastPlain = np
+			}
 			if owner == 2 {
 				zzverif.Assert(e != nil, "C20 Blank replaced a watching inner source")
 			} else {
@@ -253,7 +277,18 @@ func HarnessC20BlankContexts() {
 	if err != nil {
 		return
 	}
-	if zzverif.Choose("variant", 2) == 0 {
+	variant := zzverif.Choose("variant", 3)
+	if variant == 2 {
+		// the inner watcher's state moved on between Value() and Watch(): it reports the newer
+		// value from within Watch (blocking). The view must end at the newer value.
+		w := &c20eagerWatcher{c20plainWatcher{c20plain: c20plain{a: 5}}}
+		e := b.SetSource(ctx, w)
+		zzverif.Assert(e == nil && w.watched, "C20 SetSource of a watching source failed")
+		zzverif.Assert(d.View().A == 6, "C20 an update the inner watcher reported from Watch was overwritten by the older initial value")
+		zzverif.Reached("c20-blank-eager-end")
+		return
+	}
+	if variant == 0 {
 		cctx, ccancel := context.WithCancel(ctx)
 		w := &c20plainWatcher{c20plain: c20plain{a: 5}}
 		e := b.SetSource(cctx, w)
